@@ -299,4 +299,53 @@ theorem p_scale_invariant {K : Type} [Field K] [LinearOrder K] [IsStrictOrderedR
     (x1 x2 : List K) : pPerm (x1.map (c * ·)) (x2.map (c * ·)) = pPerm x1 x2 :=
   pPerm_map _ (fun _ _ h => mul_lt_mul_of_pos_left h hc) x1 x2
 
+/-! ## instances of the hypotheses, and the float64 limits of the exact-arithmetic theorems -/
+
+/-- exact rational arithmetic is an instance of `LawfulInterp` (hence of `LawfulVal`): the
+hypotheses of `exact_summary_spec` and `nothing_summary_spec` are satisfiable. -/
+instance ratVal : Val Rat where
+  lt a b := decide (a < b)
+  eq a b := decide (a = b)
+  interp a b f := a + fracOf Rat f * (b - a)
+
+instance : LawfulInterp Rat where
+  lt_iff a b := by simp [Val.lt]
+  eq_iff a b := by simp [Val.eq]
+  interp_eq _ _ _ := rfl
+
+/-- a sorted sample with ties: the exact model's centre is the smaller of the two modes, the
+range warning is raised -/
+example : ∃ r, Exact.summary (⟨[1, 2, 2, 3, 3], ⟨0⟩⟩ : Sample Rat) = some r ∧ r.center = 2 ∧ r.warnings ≠ [] := by
+  obtain ⟨r, hr, hmem, hmax, hmin, _, _, _, hw⟩ :=
+    exact_summary_spec (⟨[1, 2, 2, 3, 3], ⟨0⟩⟩ : Sample Rat) (by simp) (by simp [List.pairwise_cons]; norm_num)
+  refine ⟨r, hr, ?_, hw.mpr ⟨1, by simp, 2, by simp, by norm_num⟩⟩
+  -- r.center is a most frequent value and the smallest such: 2
+  have h2 := hmax 2
+  have h3 := hmax 3
+  simp only [List.mem_cons, List.not_mem_nil, or_false] at hmem
+  rcases hmem with h | h | h | h | h <;> rw [h] at h2 h3 hmin ⊢
+  · simp at h2
+  · have := hmin 2 (by simp); norm_num at this
+  · have := hmin 2 (by simp); norm_num at this
+
+/-- the hypotheses of `nothing_summary_spec` on a concrete sample and QuantileCI result
+(n = 4, orders 1 and 4): the median is the midpoint 3, bracketed by the ends -/
+example : ∃ r, Nothing.summary (⟨[1, 2, 4, 8], ⟨0⟩⟩ : Sample Rat) 0 ⟨1, 4, 0⟩ [] = some r ∧ r.center = 3 := by
+  obtain ⟨r, hr, hc, _⟩ := nothing_summary_spec (⟨[1, 2, 4, 8], ⟨0⟩⟩ : Sample Rat) 0 ⟨1, 4, 0⟩ []
+    (by simp [List.pairwise_cons]; norm_num) (by simp) (by simp) (by simp) (by simp)
+  refine ⟨r, hr, ?_⟩
+  rw [hc]; simp [medianSpec]; norm_num
+
+/-- **median_overflow_witness** (finding X1, notes/C13.md) — in float64 the interpolation
+`a + frac·(b − a)` of moremath's `Quantile` overflows when b − a exceeds MaxFloat64: the median
+of the finite sample {−MaxFloat64, +MaxFloat64} is +Inf, and that of
+{−MaxFloat64, −MaxFloat64, +MaxFloat64} is NaN (0·Inf). float64 is therefore not an instance of
+`LawfulInterp`; `nothing_summary_spec` speaks about exact arithmetic, the correspondence and the
+search layer about float64 within the magnitudes of the generators. -/
+theorem median_overflow_witness :
+    Nothing.quantileHalf (α := F64.Bits) [0xFFEFFFFFFFFFFFFF, 0x7FEFFFFFFFFFFFFF] = some F64.posInf ∧
+    (Nothing.quantileHalf (α := F64.Bits) [0xFFEFFFFFFFFFFFFF, 0xFFEFFFFFFFFFFFFF, 0x7FEFFFFFFFFFFFFF]).map F64.isNaN
+      = some true := by
+  decide +kernel
+
 end C13
